@@ -194,3 +194,17 @@ def removed_keys(db):
 
 def old_value(db, k):
     return old(db.database[k])
+
+
+def relevance_metres(code):
+    """EN 302 895 RelevanceDistance: lessThan50m(0) ... lessThan10km(6), over10km(7)"""
+    return {0: 50, 1: 100, 2: 200, 3: 500, 4: 1000, 5: 5000, 6: 10000}[code]
+
+
+def inside_area_of_maintenance(m, record):
+    """the record's position lies within the relevance distance of the area of maintenance (code 7, 'over 10 km', bounds
+    nothing).  Distance as the maintenance code measures it (uninterpreted)."""
+    code = m.area_of_maintenance.reference_area.relevance_area.relevance_distance.relevance_distance
+    d = uf('euclid', 'real', record['location']['referencePosition']['latitude'], record['location']['referencePosition']['longitude'],
+           m.area_of_maintenance.reference_position.latitude, m.area_of_maintenance.reference_position.longitude)
+    return code == 7 or int(d) < relevance_metres(code)
